@@ -19,13 +19,13 @@ INPUTS = {
     'quick': [('gen/MC_C02tok', 'gen/MC_C02tok.cfg', 6), ('gen/MC_C03', 'gen/MC_C03atoms_q.cfg', 1), ('gen/MC_C07', 'gen/MC_C07cbor_q.cfg', 4), ('gen/MC_C07', 'gen/MC_C07msgpack_q.cfg', 4),
               ('gen/MC_C07', 'gen/MC_C07ubjson_q4.cfg', 8), ('gen/MC_C07', 'gen/MC_C07bson_tok_q.cfg', 8), ('gen/MC_C07', 'gen/MC_C07cbor_rep.cfg', 1), ('gen/MC_C07', 'gen/MC_C07bson_rep.cfg', 2),
               ('gen/MC_C14', 'gen/MC_C14str_q.cfg', 16), ('gen/MC_C12', 'gen/MC_C12slice_q.cfg', 24), ('gen/MC_C12', 'gen/MC_C12filter_q.cfg', 80), ('gen/MC_C13', 'gen/MC_C13fn_q.cfg', 20),
-              ('gen/MC_C11', 'gen/MC_C11atoms_q.cfg', 12), ('gen/MC_C15', 'gen/MC_C15_q.cfg', 10), ('gen/MC_C05enc', 'gen/MC_C05enc_q.cfg', 1), ('gen/MC_C05cbor', 'gen/MC_C05cbor.cfg', 1)],
+              ('gen/MC_C11', 'gen/MC_C11atoms_q.cfg', 12), ('gen/MC_C15', 'gen/MC_C15_q.cfg', 10), ('gen/MC_C05enc', 'gen/MC_C05enc_q.cfg', 1), ('gen/MC_C05cbor', 'gen/MC_C05cbor.cfg', 1), ('gen/MC_C03csv', 'gen/MC_C03csv_q.cfg', 12)],
     'thorough': [('gen/MC_C02tok', 'gen/MC_C02tok.cfg', 1), ('gen/MC_C02char', 'gen/MC_C02char_q.cfg', 2), ('gen/MC_C03', 'gen/MC_C03atoms_t.cfg', 1), ('gen/MC_C07', 'gen/MC_C07cbor_q.cfg', 1),
                  ('gen/MC_C07', 'gen/MC_C07cbor_tok_q.cfg', 2), ('gen/MC_C07', 'gen/MC_C07msgpack_q.cfg', 1), ('gen/MC_C07', 'gen/MC_C07msgpack_tok_q.cfg', 2), ('gen/MC_C07', 'gen/MC_C07ubjson_q4.cfg', 1),
                  ('gen/MC_C07', 'gen/MC_C07ubjson_tok_q.cfg', 2), ('gen/MC_C07', 'gen/MC_C07bson_tok_q.cfg', 1), ('gen/MC_C07', 'gen/MC_C07cbor_rep.cfg', 1), ('gen/MC_C07', 'gen/MC_C07msgpack_rep.cfg', 1),
                  ('gen/MC_C07', 'gen/MC_C07ubjson_rep.cfg', 1), ('gen/MC_C07', 'gen/MC_C07bson_rep.cfg', 1), ('gen/MC_C14', 'gen/MC_C14str_q.cfg', 2), ('gen/MC_C12', 'gen/MC_C12slice_q.cfg', 3),
                  ('gen/MC_C12', 'gen/MC_C12filter_q.cfg', 8), ('gen/MC_C12', 'gen/MC_C12seg_q.cfg', 20), ('gen/MC_C13', 'gen/MC_C13fn_q.cfg', 2), ('gen/MC_C13', 'gen/MC_C13wrap_q.cfg', 30),
-                 ('gen/MC_C11', 'gen/MC_C11atoms_q.cfg', 3), ('gen/MC_C11', 'gen/MC_C11pairs_q.cfg', 20), ('gen/MC_C15', 'gen/MC_C15_q.cfg', 2), ('gen/MC_C05enc', 'gen/MC_C05enc_t.cfg', 1), ('gen/MC_C05cbor', 'gen/MC_C05cbor.cfg', 1)],
+                 ('gen/MC_C11', 'gen/MC_C11atoms_q.cfg', 3), ('gen/MC_C11', 'gen/MC_C11pairs_q.cfg', 20), ('gen/MC_C15', 'gen/MC_C15_q.cfg', 2), ('gen/MC_C05enc', 'gen/MC_C05enc_t.cfg', 1), ('gen/MC_C05cbor', 'gen/MC_C05cbor.cfg', 1), ('gen/MC_C03csv', 'gen/MC_C03csv_q.cfg', 1)],
 }
 
 
@@ -51,6 +51,8 @@ def sig(r):
     s = {'what': r.get('what') or r.get('k'), 'ep': r.get('ep')}
     if 't' in c and isinstance(c['t'], list):
         s['text'] = bytes(c['t']).decode('latin1')
+    elif 'csv' in c:
+        s['text'] = 'csv:' + bytes(c['csv']).decode('latin1')
     elif 'b' in c:
         s['format'] = c.get('f'); s['bytes'] = bytes(c['b']).hex()
     elif 'e' in c:
